@@ -14,7 +14,7 @@ from mon.probe.wrap import wrap
 from mon.ref import fsc as F
 
 PROP = "C09"
-CASES = {"quick": 320, "thorough": 5000}
+CASES = {"quick": 320, "thorough": 20000}
 CASE_TIMEOUT = 240
 SHARD_TIMEOUT = {"quick": 900, "thorough": 7200}
 REQUIRED = ["evaluator_calls", "evaluator_entries_compared", "histories_checked", "bpi_runs", "ga_runs",
